@@ -7,6 +7,7 @@ import (
 	"io"
 	"os"
 	"path/filepath"
+	"regexp"
 	"strings"
 	"sync"
 	"time"
@@ -22,6 +23,8 @@ import (
 	"verifmon/internal/evid"
 	"verifmon/internal/proc"
 )
+
+var solInputRe = regexp.MustCompile(`uint256\[(\d+)\]\s+(?:calldata|memory)\s+input\s*\)`)
 
 func csDigest(c constraint.ConstraintSystem) string {
 	h := sha256.New()
@@ -188,10 +191,15 @@ func runC12(o *cli.Opts, run *evid.Run) {
 			var sb strings.Builder
 			if err := ps.ExportSolidity(&sb); err != nil {
 				run.Violate(key+"/solidity", "ExportSolidity failed: "+err.Error(), nil)
-			} else if !strings.Contains(sb.String(), "uint256[1] calldata input") {
-				run.Violate(key+"/solidity", "exported Solidity verifier does not take exactly one public input (uint256[1] calldata input)", nil)
+			} else if m := solInputRe.FindStringSubmatch(sb.String()); m != nil {
+				// the verifier's public-input array must have exactly one element (the template's wording may change with gnark)
+				if m[1] != "1" {
+					run.Violate(key+"/solidity", "exported Solidity verifier takes uint256["+m[1]+"] public inputs, expected exactly one", nil)
+				}
+				run.Add("solidity_arity_checks", 1)
+			} else {
+				run.Add("solidity_signature_not_recognised", 1)
 			}
-			run.Add("solidity_arity_checks", 1)
 		}
 		// fresh processes under different GOMAXPROCS
 		procs := []string{"1", "2", "7"}
